@@ -301,14 +301,7 @@ func (s *PersistentHybridIndex) Remove(id uint32) error {
 	// Remove from active memtable
 	// Note: Documents in frozen memtables and segments cannot be removed
 	// They will be removed during compaction
-	memtables := s.memtableQueue.list()
-	if len(memtables) > 0 {
-		mutable := memtables[len(memtables)-1]
-		verifPoint("remove:before_remove", mutable)
-		return mutable.remove(id)
-	}
-
-	return nil
+	return s.memtableQueue.removeDoc(id)
 }
 
 // NewSearch creates a new search builder for this index.
